@@ -23,7 +23,9 @@ import (
 
 var cacheRatios = []float64{0, 0.25, 0.5, 0.75, 1}
 var cacheJitters = []float64{0, 0, 0.01, 1.0 / 16}
-var cacheTTLs = []int64{60, 3600, 3600, 86400, 86400, 7776000, 0, -60, -3600}
+
+// positive TTLs are at least an hour: the delay bucket is robust against stalls of minutes
+var cacheTTLs = []int64{3600, 3600, 7200, 86400, 86400, 7776000, 0, -60, -3600}
 
 func randLetters(r *wire.Rng, min, max int) string {
 	n := min + r.Intn(max-min+1)
@@ -175,6 +177,10 @@ func execCache(in, outp string) {
 				out.Line(execConc(t))
 				return
 			}
+			if t[0] == "stress" {
+				out.Line(runStress(t))
+				return
+			}
 			if s == nil {
 				s = newSUT(0.5, 0, false)
 			}
@@ -205,7 +211,8 @@ func execCache(in, outp string) {
 				if s.q.len() > q0 {
 					e := s.q.entries[s.q.len()-1]
 					if w := nacache.VerifCachedWorkload(s.sc); w != nil {
-						nb = fmt.Sprint(bucket(int64(e.delay), int64(w.ExpireTime.Sub(w.CreatedTime))))
+						// lifetime judged by the LEAF's NotAfter, not by the client's own bookkeeping
+						nb = fmt.Sprint(bucket(int64(e.delay), int64(leafNotAfter(w).Sub(w.CreatedTime))))
 					} else {
 						nb = "?"
 					}
@@ -267,7 +274,9 @@ func execCache(in, outp string) {
 //	root-not-ca         a served / cached / recorded trust root is not a CA certificate (e.g. the workload's own leaf)
 //	merge-unsorted      a ROOTCA answer is not sorted / de-duplicated
 //	renewal-count       a newly cached certificate did not schedule exactly one rotation (or one was scheduled without a new certificate)
-//	negative-delay, late-schedule, not-strict   scheduled delay vs time to expiry
+//	expiry-not-from-leaf, created-out-of-window   the client's ExpireTime is not the leaf's NotAfter / its CreatedTime is
+//	                    not inside the call
+//	negative-delay, late-schedule, not-strict   scheduled delay vs time to expiry OF THE LEAF (NotAfter)
 //	notify-before-clear a `default` callback was delivered while a certificate was still cached (a subscriber
 //	                    re-requesting from the callback would get the old certificate and nobody would renew it)
 //	rotation-missed     the rotation task of the cached certificate did not clear the cache and notify `default`
@@ -328,6 +337,12 @@ func oracleCache(in, outp string) {
 		}
 		if t[0] == "conc" {
 			if v := oracleConc(t); v != "" {
+				fail(v, t, "")
+			}
+			continue
+		}
+		if t[0] == "stress" {
+			if v := oracleStress(t); v != "" {
 				fail(v, t, "")
 			}
 			continue
@@ -437,17 +452,26 @@ func oracleCache(in, outp string) {
 					e := s.q.entries[s.q.len()-1]
 					e.cert = certID(after.CertificateChain)
 					d := e.delay
-					life := after.ExpireTime.Sub(after.CreatedTime)
+					now1 := time.Now()
+					// "no later than its expiry" is about the certificate that is served: the expiry is the
+					// leaf's NotAfter, and the client's own ExpireTime / CreatedTime must agree with reality
+					notAfter := leafNotAfter(after)
+					if !after.ExpireTime.Equal(notAfter) {
+						fail("expiry-not-from-leaf", t, fmt.Sprintf("ExpireTime %v leaf NotAfter %v", after.ExpireTime.Sub(now0), notAfter.Sub(now0)))
+					}
+					if after.CreatedTime.Before(now0) || after.CreatedTime.After(now1) {
+						fail("created-out-of-window", t, fmt.Sprint(after.CreatedTime.Sub(now0)))
+					}
+					life := notAfter.Sub(after.CreatedTime)
 					if d < 0 {
 						fail("negative-delay", t, d.String())
 					}
-					if !after.ExpireTime.Before(now0) && now0.Add(d).After(after.ExpireTime) {
-						fail("late-schedule", t, fmt.Sprintf("delay %v expire in %v", d, after.ExpireTime.Sub(now0)))
+					if !notAfter.Before(now0) && now0.Add(d).After(notAfter) {
+						fail("late-schedule", t, fmt.Sprintf("delay %v, leaf expires in %v", d, notAfter.Sub(now0)))
 					}
-					now1 := time.Now()
 					if life > 0 && ratio-jitter > 0 && (ratio-jitter)*float64(life) >= float64(time.Second) && d > 0 &&
-						now1.Sub(now0) < 500*time.Millisecond && !now1.Add(d).Before(after.ExpireTime) {
-						fail("not-strict", t, fmt.Sprintf("delay %v expire in %v", d, after.ExpireTime.Sub(now0)))
+						now1.Sub(now0) < 500*time.Millisecond && !now1.Add(d).Before(notAfter) {
+						fail("not-strict", t, fmt.Sprintf("delay %v, leaf expires in %v", d, notAfter.Sub(now0)))
 					}
 				}
 				// root change announcement
